@@ -256,6 +256,12 @@ def run(ctx):
     util = repo.find_function("remove_completed_operations")
     calls = [n for n in own_nodes(upd.node) if isinstance(n, ast.Call) and ast.unparse(n.func) == "remove_completed_operations"]
     if len(calls) != 1:
+        # a template-method split: the private steps written out
+        upd_f = ctx.norm.flat(upd, depth=3)
+        calls_f = [n for n in own_nodes(upd_f.node) if isinstance(n, ast.Call) and ast.unparse(n.func) == "remove_completed_operations"]
+        if len(calls_f) == 1:
+            upd_raw, upd, calls = upd, upd_f, calls_f
+    if len(calls) != 1:
         chk.violation("R17.c", upd, None, "update does not remove the completed operations' nodes exactly once")
     else:
         c = calls[0]
@@ -271,6 +277,7 @@ def run(ctx):
     # ... and on every path: no early exit of update() before the removal (an
     # "nothing can have completed" shortcut is wrong - dispatching an operation
     # that starts later can still advance the clock)
+    upd = upd_cls.methods.get("update")
     eng_u = ctx.engine(relevant=lambda e: e.kind == "call" and util in (e.data.get("targets") or []), max_depth=2)
     for p_ in eng_u.paths(upd, upd_cls):
         if p_.outcome == "raise":
@@ -384,32 +391,61 @@ def run(ctx):
     from .common import path_atoms
 
     leng = ctx.engine(relevant=lambda e: e.kind in ("branch", "return"), max_depth=0, unroll=1)
-    n_ret = 0
-    bad_ret = None
-    for pth in leng.paths(look, g):
-        if pth.outcome != "return" or not pth.events:
-            continue
-        rv = pth.events[-1].data.get("value")
-        if rv is None:
-            continue
-        # handing back a caller-supplied fallback (a parameter other than the
-        # looked-up id, e.g. `default=`) is not returning a node of the graph
-        if isinstance(rv, ast.Name) and rv.id in look.params and rv.id != pid and not ctx.flow.defs(look).of(rv.id):
-            continue
-        n_ret += 1
-        x = ctx.norm.xexpr(look, rv)
-        rt = ast.unparse(x)
-        ok_ret = False
-        if isinstance(x, ast.Call) and isinstance(x.func, ast.Name) and x.func.id == "next" and x.args and isinstance(x.args[0], ast.GeneratorExp):
-            ge = x.args[0]
-            conds = [ast.unparse(c) for gen in ge.generators for c in gen.ifs]
-            ok_ret = any("==" in t and pid in t for t in conds) and ast.unparse(ge.elt) == ast.unparse(ge.generators[0].target)
-        if not ok_ret:
-            for t, val in path_atoms(ctx, pth.events).items():
-                if val and "==" in t and pid in t and (rt in t or ast.unparse(rv) in t):
-                    ok_ret = True
-        if not ok_ret and bad_ret is None:
-            bad_ret = (pth, rv)
+
+    def verify(fn, recv, pid, depth=0):
+        """(number of node-returning paths, first unverified (path, value) or None)
+        for ``fn`` looking up the id held by its parameter ``pid``."""
+        n_ret, bad = 0, None
+        for pth in leng.paths(fn, recv):
+            if pth.outcome != "return" or not pth.events:
+                continue
+            rv = pth.events[-1].data.get("value")
+            if rv is None or (isinstance(rv, ast.Constant) and rv.value is None):
+                continue
+            # handing back a caller-supplied fallback (a parameter other than the
+            # looked-up id, e.g. `default=`) is not returning a node of the graph
+            if isinstance(rv, ast.Name) and rv.id in fn.params and rv.id != pid and not ctx.flow.defs(fn).of(rv.id):
+                continue
+            n_ret += 1
+            x = ctx.norm.xexpr(fn, rv)
+            rt = ast.unparse(x)
+            ok_ret = False
+            if isinstance(x, ast.Call) and isinstance(x.func, ast.Name) and x.func.id == "next" and x.args and isinstance(x.args[0], ast.GeneratorExp):
+                ge = x.args[0]
+                conds = [ast.unparse(c) for gen in ge.generators for c in gen.ifs]
+                ok_ret = any("==" in t and pid in t for t in conds) and ast.unparse(ge.elt) == ast.unparse(ge.generators[0].target)
+            if not ok_ret:
+                for t, val in path_atoms(ctx, pth.events).items():
+                    if val and "==" in t and pid in t and (rt in t or ast.unparse(rv) in t):
+                        ok_ret = True
+            if not ok_ret and isinstance(rv, ast.Name) and depth < 2:
+                # the node comes from private look-up steps (`node = self._at(nodes, node_id, attr)`,
+                # possibly `if node is None: node = self._scan(...)`): each step verified on its own
+                ds = [d for d in ctx.flow.defs(fn).of(rv.id) if d[0] == "value"]
+                steps = []
+                for _k, v, _st in ds:
+                    if isinstance(v, ast.Constant) and v.value is None:
+                        continue
+                    ts = ctx.res.callees(fn, v, recv)[0] if isinstance(v, ast.Call) else []
+                    if len(ts) != 1 or not ts[0].name.startswith("_") or isinstance(ts[0].node, ast.Lambda):
+                        steps = None
+                        break
+                    t = ts[0]
+                    ps = t.params[1:] if (t.cls is not None and not t.is_static) else t.params
+                    bound = dict(zip(ps, v.args))
+                    bound.update({k.arg: k.value for k in v.keywords if k.arg})
+                    pp = [q for q, a_ in bound.items() if isinstance(a_, ast.Name) and a_.id == pid]
+                    if len(pp) != 1:
+                        steps = None
+                        break
+                    steps.append((t, pp[0]))
+                if steps:
+                    ok_ret = all(verify(t, t.cls if t.cls is not None else None, q, depth + 1)[1] is None for t, q in steps)
+            if not ok_ret and bad is None:
+                bad = (pth, rv)
+        return n_ret, bad
+
+    n_ret, bad_ret = verify(look, g, pid)
     if n_ret == 0:
         raise AnalysisError("get_node_by_type_and_id: no returning path")
     if bad_ret is not None:
